@@ -42,6 +42,7 @@ structure Sess where
   sit    : Option (Nat × Nat × Bool) := none       -- slot, position, removed (spec)
   szit   : Option (Nat × Nat × Nat × Bool) := none
   mem    : Mem := {}
+  blind : Bool := false      -- configuration too large to execute in the driver: lines are `?`
 
 def Sess.arr (s : Sess) (k : Nat) : Option Arr := (s.slots.getD k none)
 def Sess.lst (s : Sess) (k : Nat) : Option (List Nat) := (s.sslots.getD k none)
@@ -100,11 +101,14 @@ def step (s : Sess) (c : Cmd) : Sess × String × String :=
     let isNew := c.op == "new"
     let cap := if isNew then c.nat "cap" Gen.ARRAY_DEFAULT_CAPACITY else Gen.ARRAY_DEFAULT_CAPACITY
     let f := effFactor (match (if isNew then c.str "exp" else none) with | some e => parseF32 e | none => defaultFactor)
+    -- block sizes the driver cannot materialise (the C side sees a wrapped byte count there)
+    if cap > 2 ^ 24 ∨ f > 1024 then ({ blind := true }, "S ?", "M ?") else
     let (st, r, m) := Arr.new cap (growF f) (exGeF f) m
     let sst : Stat := if cap = 0 ∨ exGeF f (Gen.CC_MAX_ELEMENTS / cap) then .errInvalidCapacity else if refused then .errAlloc else .ok
     let s' : Sess := { slots := [r, none, none, none], sslots := [if sst = .ok then some [] else none, none, none, none], mem := m }
     fin s' (fmtStat sst) (fmtStat st)
   | _ =>
+  if s.blind then (s, "S ?", "M ?") else
   if s.slots.all Option.isNone then
     ({ s with mem := m }, "S st=- nosession", s!"M st=- nosession | - | {fmtMem m} | {fmtFlags true m}")
   else
@@ -122,7 +126,8 @@ def step (s : Sess) (c : Cmd) : Sess × String × String :=
     if cb then fin r.1 s!"st=- cb={fmtList r.2.1}" s!"st=- cb={fmtList r.2.2}" else fin r.1 "st=-" "st=-"
   | "zit_new" =>
     let p := c.nat "p" 1
-    if p ≥ NSLOT ∨ p = k ∨ (s.arr k).isNone ∨ (s.arr p).isNone then msg "noobj" else
+    if p ≥ NSLOT ∨ p = k ∨ (s.arr k).isNone ∨ (s.arr p).isNone then
+      fin { s with zit := none, szit := none } "st=- noobj" "st=- noobj" else
     fin { s with zit := some (k, p, {}), szit := some (k, p, 0, false) } "st=-" "st=-"
   | "zit_next" | "zit_remove" | "zit_add" | "zit_replace" | "zit_index" =>
     match s.zit, s.szit with
@@ -153,7 +158,7 @@ def step (s : Sess) (c : Cmd) : Sess × String × String :=
       | _, _, _, _ => msg "noiter"
     | _, _ => msg "noiter"
   | "it_new" =>
-    if (s.arr k).isNone then msg "noobj" else
+    if (s.arr k).isNone then fin { s with it := none, sit := none } "st=- noobj" "st=- noobj" else
     fin { s with it := some (k, {}), sit := some (k, 0, false) } "st=-" "st=-"
   | "it_next" | "it_remove" | "it_add" | "it_replace" | "it_index" =>
     match s.it, s.sit with
